@@ -581,6 +581,24 @@ class Check:
             pool = [5.0, 7.0, 49.0, 0.1, 3.0, -2.5, 1.0 / 3.0, 10.0, 0.7, -13.0, 1e-3, 123.456]
             for _ in range(24):
                 yield {nm: (Fraction(rng.choice(pool)) if lt in mir.FLOATS else (rng.random() < 0.5 if lt == 'bool' else rng.randint(1, 9))) for nm, lt in order}
+            # structured candidates: a parameter with n*n float leaves may be a matrix -- make it the identity up to one
+            # rounding unit (diagonal 1 + 2^-52, one off-diagonal 1e-17), which approximate predicates treat as identity
+            groups = {}
+            for nm, lt in order:
+                groups.setdefault(nm.split('.')[0], []).append((nm, lt))
+            for pick in range(4):
+                cand = {}
+                for gi, (g, leaves) in enumerate(sorted(groups.items())):
+                    n = int(round(len(leaves) ** 0.5))
+                    square = n * n == len(leaves) and n >= 2 and all(lt in mir.FLOATS for _, lt in leaves)
+                    for i, (nm, lt) in enumerate(leaves):
+                        if lt not in mir.FLOATS:
+                            cand[nm] = (rng.random() < 0.5) if lt == 'bool' else rng.randint(1, 9)
+                        elif square and (gi + pick) % 2 == 0:
+                            cand[nm] = Fraction(1.0 + 2.0 ** -52) if i % (n + 1) == 0 and i == 0 else (Fraction(1) if i % (n + 1) == 0 else (Fraction(1e-17) if i == 1 else Fraction(0)))
+                        else:
+                            cand[nm] = Fraction(rng.choice(pool))
+                yield cand
 
     def bounded_models(s, ob, o, order):
         names = [nm for nm, lt in order if lt in mir.FLOATS]
